@@ -6,8 +6,8 @@
 //	    ("original data or an error, never altered data; intact chunks unaffected") and
 //	    Coq case files compare the byte-exact file layout and every ReadAt result
 //	    (data / end-of-file error / integrity error) with the model ChecksumFile.v.
-//	(b) fault enumeration end to end: a small store (log segment A = 2 blocks, log
-//	    segment B = 1 block, one metrics segment) is built by the real writer; for every
+//	(b) fault enumeration end to end: a small store (log segment A = 3 blocks, log
+//	    segment B = 2 blocks, distinct timestamps per block, one metrics segment) is built by the real writer; for every
 //	    sampled mutation of one stored file a fresh worker process (timeout, ulimit -v)
 //	    runs the queries on the damaged store.  Outcome classes: same / events missing or
 //	    error / ALTERED values / crash / hang / other segment affected.
@@ -666,26 +666,17 @@ func runQueryWorker(data, outPath string, timeout time.Duration, perQuerySec int
 	return &wo, "ok", ""
 }
 
-// ---- expected answers per set of searchable blocks (A1, A2, B) ----
-type unit struct {
-	Name string
-	Seg  string
-	Evs  []event
-}
-
-func units() []unit {
-	a1, a2, b := storeEvents()
-	return []unit{{"A1", "A", a1}, {"A2", "A", a2}, {"B", "B", b}}
-}
+// ---- expected answers per set of searchable blocks (A1, A2, A3, B1, B2) ----
+func units() []unit { return storeBlocks() }
 
 func evRecord(e event) string {
-	return canon(map[string]interface{}{"grp": e.Grp, "id": e.ID, "msg": e.Msg, "n": e.N, "seg": e.Seg, "timestamp": tsBase + uint64(e.ID), "w": e.Word})
+	return canon(map[string]interface{}{"grp": e.Grp, "id": e.ID, "msg": e.Msg, "n": e.N, "seg": e.Seg, "timestamp": e.TS, "w": e.Word})
 }
 
 // matches of a log search query on one event (the spec side of the four search queries)
 func evMatches(q string, e event) bool {
 	switch q {
-	case "all":
+	case "all", "asc":
 		return true
 	case "term":
 		return e.Word == "alpha"
@@ -741,6 +732,9 @@ func eqMap(a, b map[string]string) bool {
 type qOutcome struct {
 	Missing map[string]bool // unit names (search: a unit is missing if ANY of its matching records is missing)
 	ColMiss map[string]bool // units with a record returned without some of its columns (the present ones are original)
+	// aggregates: every set of missing blocks that explains the answer (counts can be ambiguous);
+	// Missing is the first one, the caller prefers one inside the damaged segment
+	MissAlts []map[string]bool
 	Altered string          // non-empty: description of values that were never ingested / wrong aggregates
 	Err     string
 }
@@ -764,7 +758,7 @@ func judgeQuery(q qres) qOutcome {
 	o := qOutcome{Missing: map[string]bool{}, ColMiss: map[string]bool{}, Err: q.Err}
 	us := units()
 	switch q.Name {
-	case "all", "term", "msg", "num":
+	case "all", "asc", "term", "msg", "num":
 		want := map[string]string{}
 		owner := map[string]string{}
 		for _, u := range us {
@@ -819,7 +813,14 @@ func judgeQuery(q qres) qOutcome {
 	case "stats", "count":
 		// the answer must be the aggregate over some subset of the blocks
 		found := false
-		for mask := 7; mask >= 0 && !found; mask-- {
+		got := q.Groups
+		if got == nil {
+			got = map[string]string{}
+		}
+		if q.Name == "count" && len(got) == 0 {
+			got = map[string]string{"*": "{\"c\":0}"}
+		}
+		for mask := 1<<uint(len(us)) - 1; mask >= 0; mask-- {
 			var evs []event
 			miss := map[string]bool{}
 			for i, u := range us {
@@ -829,17 +830,12 @@ func judgeQuery(q qres) qOutcome {
 					miss[u.Name] = true
 				}
 			}
-			exp := expectedStats(q.Name, evs)
-			got := q.Groups
-			if got == nil {
-				got = map[string]string{}
-			}
-			if q.Name == "count" && len(got) == 0 {
-				got = map[string]string{"*": "{\"c\":0}"}
-			}
-			if eqMap(exp, got) {
+			if eqMap(expectedStats(q.Name, evs), got) {
+				if !found {
+					o.Missing = miss
+				}
 				found = true
-				o.Missing = miss
+				o.MissAlts = append(o.MissAlts, miss)
 			}
 		}
 		if !found {
@@ -1052,9 +1048,9 @@ func runE2E(cfg vhlib.Config, sum *vhlib.Summary, r *vhlib.Rng) {
 			sum.Fail("chunk_layout_broken", "column file "+f.Rel+" written by the segment writer is not a sequence of magic|crc|len|data chunks", c)
 			continue
 		}
-		want := 1
+		want := 2
 		if f.Seg == "A" {
-			want = 2
+			want = 3
 		}
 		if len(chunks) != want {
 			sum.Fail("chunk_layout_broken", fmt.Sprintf("column file %s has %d chunks, the segment has %d blocks", f.Rel, len(chunks), want), c)
@@ -1128,10 +1124,10 @@ func runE2E(cfg vhlib.Config, sum *vhlib.Summary, r *vhlib.Rng) {
 	if cfg.Thorough() {
 		for _, f := range files {
 			step := 1
-			if f.Size > 400 {
+			if f.Size > 400 && f.Kind != "csg" {
 				step = 7 // the larger files (sfm, sst, segmeta.json): every 7th position
 			}
-			if f.Size > 1500 {
+			if f.Size > 1500 && f.Kind != "csg" {
 				step = 31 // pqmr
 			}
 			for p := 0; p < f.Size; p += step {
@@ -1168,6 +1164,26 @@ func runE2E(cfg vhlib.Config, sum *vhlib.Summary, r *vhlib.Rng) {
 				f2 := g[r.Intn(len(g))]
 				addMut(f2, "xor", r.Intn(f2.Size), 0xFF)
 				addMut(f2, "trunc", r.Intn(f2.Size), 0)
+			}
+		}
+	}
+	// column files: cuts at every chunk boundary, inside every chunk's header and inside every
+	// chunk's data (not only the first chunk): a block whose file ends inside its data must be
+	// refused, not served from what the reader holds from an earlier block
+	for _, f := range files {
+		if f.Kind != "csg" || cfg.Thorough() { // thorough enumerates every truncation length anyway
+			continue
+		}
+		chunks, ok := scanChunks(content[f.Rel])
+		if !ok {
+			continue
+		}
+		for _, ch := range chunks {
+			for _, cut := range []int{ch.Off, ch.Off + 5, ch.Off + 12, ch.Off + 12 + ch.Len/2, ch.Off + 12 + ch.Len - 1} {
+				if cut > 0 {
+					addMut(f, "trunc", cut, 0)
+					sum.Count("e2e/csg_chunk_truncation")
+				}
 			}
 		}
 	}
@@ -1237,8 +1253,8 @@ func runE2E(cfg vhlib.Config, sum *vhlib.Summary, r *vhlib.Rng) {
 		case f.Kind == "segmeta.json":
 			for k, loc := range epochRx.FindAllSubmatchIndex(b, -1) {
 				if k < epochSamples {
-					// tens digit of the millisecond value: the segment's time range no longer covers its blocks
-					addMut(f, "xor", loc[5]-2, 0x01)
+					// last digit of the millisecond value 1 -> 3: the segment's time range starts inside its first block
+					addMut(f, "xor", loc[5]-1, 0x02)
 					muts[len(muts)-1].Generous = true
 				}
 			}
@@ -1422,6 +1438,19 @@ func runE2E(cfg vhlib.Config, sum *vhlib.Summary, r *vhlib.Rng) {
 			if q.Err != "" {
 				details = append(details, q.Name+" err: "+q.Err)
 			}
+			// an aggregate that several sets of missing blocks explain: prefer one inside the damaged segment
+			for _, alt := range o.MissAlts {
+				inside := true
+				for u := range alt {
+					if unitSeg(u) != f.Seg {
+						inside = false
+					}
+				}
+				if inside {
+					o.Missing = alt
+					break
+				}
+			}
 			if o.Altered != "" {
 				altered = q.Name + ": " + o.Altered
 			}
@@ -1507,7 +1536,7 @@ func main() {
 		"legacy files, API-misuse files, and the real column files of the store; mutations: none, every truncation length, single-byte modifications " +
 		"(quick: every chunk-header byte + random positions; thorough: every position x 5 values). " +
 		"e2e stream: one case = one mutation (byte xor 0xFF / xor one bit / set 0 / truncation) of one stored file of a 2-log-segment + 1-metrics-segment store, " +
-		"7 queries in a fresh worker process. non-trivial = the mutation changes the file; distinct by (file, mutation, read)")
+		"8 queries in a fresh worker process. non-trivial = the mutation changes the file; distinct by (file, mutation, read)")
 	r := vhlib.NewRng(cfg.Seed)
 	runDirect(cfg, sum, r.Fork())
 	runE2E(cfg, sum, r.Fork())
